@@ -92,8 +92,7 @@ theorem heapK_hole {k : Nat} {g : Nat → Rat} {n : Nat} (h : HeapK k g n) (pos 
 
 /-- `sift_up` step: the parent's value moves down into the hole, the hole moves up -/
 theorem up_step {g : Nat → Rat} {n pos : Nat} {x : Rat} (h : HoleInv 0 g n pos) (hp0 : 0 < pos)
-    (hpn : pos < n) (hc : ∀ j, 0 < j → j < n → (j - 1) / 2 = pos → x ≤ g j)
-    (hx : x < g ((pos - 1) / 2)) :
+    (hpn : pos < n) (hx : x < g ((pos - 1) / 2)) :
     HoleInv 0 (upd g pos (g ((pos - 1) / 2))) n ((pos - 1) / 2) ∧
     (∀ j, 0 < j → j < n → (j - 1) / 2 = (pos - 1) / 2 →
       x ≤ upd g pos (g ((pos - 1) / 2)) j) := by
@@ -178,7 +177,7 @@ theorem siftUpGo_heap (elt : VScore) : ∀ (f : Nat) (d : Heap) (pos : Nat),
         have hlt : elt.area < p.area := by
           rw [le_iff] at hle; exact not_le.1 hle
         have hl : (d.set pos p).length = d.length := List.length_set
-        obtain ⟨s1, s2⟩ := up_step hh hp0 hpos hc (by rw [hvp]; exact hlt)
+        obtain ⟨s1, s2⟩ := up_step hh hp0 hpos (by rw [hvp]; exact hlt)
         rw [hvp, ← val_set d pos p hpos] at s1 s2
         have ih := siftUpGo_heap elt f (d.set pos p) ((pos - 1) / 2) (by omega) (by omega)
           (by rw [hl]; exact s1) (by rw [hl]; exact s2)
